@@ -17,4 +17,5 @@ INVARIANT KeysMatchRules
 INVARIANT MemMatchesDb
 INVARIANT LastBlockRight
 INVARIANT OwnStable
+INVARIANT ExitOnlyByOwner
 INVARIANT TypeOK
